@@ -166,12 +166,33 @@ def _parser(ctx):
         if k in ("C09/mirror/SealedToken", "C09/remainder/SealedToken"):
             ctx.add("R03.6", "C03/token-parser/" + k.split("/")[1], ok, detail, site)
 
+def _shared_more(ctx):
+    """R03.7 (shared with C09 R09.7): the token text is the one-pass base64url of the payload. R03.8 (shared with C08 R08.3): a
+    cloned key is the same key component by component, so it produces the same tokens."""
+    import b64rules, c08
+    class Scratch:
+        def __init__(s): s.findings = []; s.world = ctx.world; s.crates = ctx.crates; s.analysed = {"functions": 0, "paths": 0, "call_sites": 0}; s.notes = []; s.tier = ctx.tier; s.facts_dir = ctx.facts_dir
+        def add(s, rule, k, ok, detail="", site=None, facts=None): s.findings.append((rule, k, ok, detail, site))
+        def sample(s, x): pass
+    sc = Scratch()
+    b64rules.check_encoder(sc)
+    for (rule, k, ok, detail, site) in sc.findings:
+        ctx.add("R03.7", "C03/text-encoder/" + k.rsplit("/", 1)[-1], ok, detail, site)
+    sc = Scratch()
+    c08.run(sc)
+    for (rule, k, ok, detail, site) in sc.findings:
+        if rule == "R08.3":
+            ctx.add("R03.8", "C03/clone/" + k.split("/", 1)[-1], ok, detail, site)
+
 def run(ctx):
     _run1(ctx)
     _plumbing(ctx)
     _parser(ctx)
+    _shared_more(ctx)
 FLOORS["R03.5"] = 1
 FLOORS["R03.6"] = 2
+FLOORS["R03.7"] = 2
+FLOORS["R03.8"] = 4
 
 PARSE_OK = ("ed25519::Signature::from_bytes", "ecdsa::Signature::<NistP384>::from_bytes", "<Signature as TryFrom<&[u8]>>::try_from",
             "lc::Signature::from_bytes", "ed25519_dalek::verifying::VerifyingKey::verify_stream")
